@@ -15,6 +15,7 @@ if TYPE_CHECKING:
 
 from autoarray.structures.arrays import array_2d_util
 from autoconf import conf
+from autoconf import cached_property
 
 
 def to_new_array(func):
@@ -135,6 +136,13 @@ class AbstractNDArray(ABC):
         """
         new_array = self.copy()
         new_array._array = array
+
+        # Cached properties were computed from the old array and must not travel to the new one.
+
+        for key in list(new_array.__dict__):
+            if isinstance(getattr(type(new_array), key, None), cached_property):
+                del new_array.__dict__[key]
+
         return new_array
 
     def copy(self):
